@@ -30,7 +30,7 @@ func (oracleC02) Step(x *OCtx, t *Trans) []Violation {
 		x.Wit("C02:batch-issued")
 	}
 	for _, p := range L.Problems {
-		if p.Cat == "fee" || p.Cat == "expiry" {
+		if p.Cat == "fee" || p.Cat == "expiry" || p.Cat == "early" {
 			out = append(out, viol("C02", p.Clause, kind, p.Disc, p.Detail))
 		}
 	}
